@@ -4,3 +4,4 @@ pub mod gen;
 
 pub use crate::bridge::*;
 pub use crate::core::*;
+pub mod fl;
